@@ -1134,4 +1134,38 @@ example : ([t2].filter (stillRelevantAfter (exAfter [yOther]) [yOther])).map (·
 
 end NeoModel.C07
 
+namespace NeoModel.C07
+open NeoModel NeoModel.Fees NeoModel.Admission NeoModel.Pack
 
+/-! ## 14. a fee that no longer covers size and attribute fees is never "enough gas" -/
+
+/-- **stillRelevant_false_of_underpaid.** Whatever its witnesses are or do — standard, contract-based, a script that
+accepts under any gas limit — a transaction whose network fee is below `size·FeePerByte + attribute fees` on the current
+state is dropped by the pool's filter, in both forms (ledger lookup / scratch pool of the block). In the model the
+remainder is a natural number and the test comes first, as in the code; a negative remainder never reaches the witnesses
+as a gas limit (which the VM would read as "unlimited"). -/
+theorem stillRelevant_false_of_underpaid (c : Chain) (blk : List Tx) (t : Tx) (h : t.netFee < need c t) :
+    stillRelevant c t = false ∧ stillRelevantAfter c blk t = false := by
+  have h' : t.netFee < t.size * c.feePerByte + attrsFee c t.signers.length t.attrs := h
+  constructor
+  · unfold stillRelevant
+    repeat' split
+    all_goals (first | rfl | simp_all)
+  · unfold stillRelevantAfter
+    repeat' split
+    all_goals (first | rfl | simp_all)
+
+/-- a transaction with a contract-based witness that verifies under every gas limit, carrying a NotValidBefore
+attribute and paying exactly its fees; after the attribute's fee goes up by one the filter drops it. -/
+def tFree : Tx :=
+  { hash := 70, version := 0, scriptLen := 1, scriptOk := true, sysFee := 100, netFee := 250 * 1000 + 5, validUntil := 20, size := 250,
+    signers := [⟨10, false, .contract fun _ => .ok 0⟩], attrs := [.notValidBefore 0] }
+def exFee (f : Nat) : Chain := { exChain with attrFee := fun t => if t = Generated.FeeConsts.attrNotValidBefore then f else 0 }
+
+example : stillRelevant (exFee 5) tFree = true ∧ admit (exFee 5) (freePool tFree) tFree = none
+    ∧ stillRelevant (exFee 6) tFree = false ∧ admit (exFee 6) (freePool tFree) tFree = some .smallNetFee := by decide
+
+example : stillRelevant (exFee 6) tFree = false :=
+  (stillRelevant_false_of_underpaid (exFee 6) [] tFree (by decide)).1
+
+end NeoModel.C07
